@@ -152,6 +152,8 @@ func props() map[string]Prop {
 			ID: "C13", Level: "exploration",
 			Units: []Unit{
 				{Name: "worker", Module: "godev", Pkg: "cmd/worker", Harness: "godev_worker", Run: "^TestVerifC13$", Timeout: 30 * time.Minute},
+				// the same workload (a tenth of it) under the race detector: the handlers serve overlapping requests
+				{Name: "race", Module: "godev", Pkg: "cmd/worker", Harness: "godev_worker", Run: "^TestVerifC13$", Race: true, Timeout: 30 * time.Minute, Env: []string{"VERIF_SCALE=0.1"}},
 			},
 			Assume: []string{"the server's own configuration lists well-formed Go versions (goN.M[.P|rcK]) and semantic versions", "objects are named <day>/<X>.json as the upload endpoint names them, so one day holds one object per X"},
 		},
